@@ -956,3 +956,13 @@ B('KW-leaf-lookup-length-unchecked', ['C02', 'C05'], 'index_level.py', 'IndexLev
   'I.leaf-exit-key-exhausted', 'leaf_loc_to_iloc')
 N('KW-contains-len-check', ['C02', 'C05'], 'index_level.py', 'IndexLevel.__contains__',
   '            node.index._loc_to_iloc(k)\n            found = True # if above does not raise\n', '            node.index._loc_to_iloc(k)\n            found = True\n            continue\n')
+
+# ---------------------------------------------------------------------------------- optional label parameters (C08 / C19)
+B('OH-level-add-truthiness', ['C08', 'C19'], 'frame.py', 'Frame.relabel_level_add',
+  'index = self._index.level_add(index) if index is not None else self._index', 'index = self._index.level_add(index) if index else self._index',
+  'I.optional-hashable-identity-test', 'relabel_level_add')
+B('OH-level-add-or', ['C08', 'C19'], 'frame.py', 'Frame.relabel_level_add',
+  'columns = self._columns.level_add(columns) if columns is not None else self._columns.copy()', 'columns = (columns and self._columns.level_add(columns)) or self._columns.copy()',
+  'I.optional-hashable-identity-test', 'relabel_level_add')
+N('OH-level-add-is-none-flipped', ['C08', 'C19'], 'frame.py', 'Frame.relabel_level_add',
+  'index = self._index.level_add(index) if index is not None else self._index', 'index = self._index if index is None else self._index.level_add(index)')
